@@ -544,7 +544,13 @@ class _Flattener:
             return getattr(x, attr)
         except AttributeError:
             # h5netcdf
-            return x.attrs[attr]
+            value = x.attrs[attr]
+            if isinstance(value, bytes):
+                # A text attribute of one character comes back as
+                # (numpy) bytes
+                value = value.decode()
+
+            return value
 
     def group(self, x):
         """Return the group that a variable belongs to.
